@@ -89,6 +89,10 @@ MESSAGES = [
     dict(name="len70000", char="z", repeat=70000),
     dict(name="trailing-newline", text="ends with newline\n"),
     dict(name="spaces-colon", text="  Address: not an address  "),
+    # characters str.splitlines() treats as line boundaries although they are no newline style (LF newlines, consistent)
+    dict(name="formfeed-vt", text="page one\x0cpage two\x0bcolumn\nlast line"),
+    dict(name="unicode-separators", text="a\u2028b\u2029c\x85d\x1ce\x1df\x1eg"),
+    dict(name="trailing-spaces", text="ends with blanks   "),
 ]
 
 
@@ -109,6 +113,8 @@ def exc_clause(e):
         return "no-point-for-r-indexerror"        # [0] on the empty candidate list
     if t == "NoSuchPointError":
         return "recid-ge-2-nosuchpoint"           # x + order applied to the recovered key
+    if t == "AttributeError" and "hash160" in str(e):
+        return "verifier-address-unparsable"      # parse.address returned None for the verifier's address text
     if t in ("TypeError", "AttributeError") and "NoneType" in str(e):
         return "infinity-recovered-r-multiple-of-order"    # r = n: inverse(0) -> key (None, None), crashes later
     if t == "AssertionError":
@@ -289,8 +295,8 @@ class Cross(Driver):
             yield dict(net=unit["net"], signer=sg, msg=m), BAD("sign-raises", "signs", exc_text(e), clause="exception-in-sign")
             return
         for v in sgs:
-            for how in ("key", "address"):
-                for vm in self.msgs:
+            for how in ("key", "address", "foreign-address"):
+                for vm in (self.msgs if how != "foreign-address" else [m]):
                     case = dict(net=unit["net"], signer=sg, msg=m, verifier=dict(v, how=how), vmsg=vm, sig=sig)
                     yield case, self.run(case)
 
@@ -300,6 +306,8 @@ class Cross(Driver):
         same_secret = sg["secret"] == v["secret"]
         same_comp = bool(sg["compressed"]) == bool(v["compressed"])
         want = same_secret and text == vtext and (v["how"] == "key" or same_comp)
+        if v["how"] == "foreign-address":
+            want = False        # the same key's address on ANOTHER network is another address: must fail to verify, not raise
         try:
             decoy_hash(case["net"], text)
             decoy_hash(case["net"], vtext)
@@ -310,6 +318,9 @@ class Cross(Driver):
             Qv = k1.pt_mul(int(v["secret"]), G)
             vk = net.keys.public(Qv, is_compressed=bool(v["compressed"]))
             who = vk if v["how"] == "key" else vk.address()
+            if v["how"] == "foreign-address":
+                other = network("LTC" if case["net"] != "LTC" else "BTC")
+                who = other.keys.public(Qv, is_compressed=bool(v["compressed"])).address()
         except Exception as e:
             return BAD("setup-raises", "keys and signature constructible", exc_text(e), clause="exception-in-setup")
         res, err = call_verify(net, who, sig, vtext)
